@@ -178,6 +178,58 @@ def main():
                         mitems.append(("P", moff + int(t, 16) / mdiv, bytes.fromhex(d)))
                 if (mdiv, moff, mitems) != (div, off, items):
                     disagreements.append({"what": label, "model": "%s %s %d items" % (mdiv, moff, len(mitems)), "impl": "%s %s %d items" % (div, off, len(items)), "capture": data.hex()})
+    # the legacy pcap reader (dpkt.pcap.Reader, as main.run uses it with -l) against Model/PcapLegacy.read_legacy: well-formed files in both byte
+    # orders, micro- and nanosecond and "modified" magics, any header fields; the same cut at any byte; captured lengths beyond the end;
+    # damaged magics; files shorter than the header.  The model gives (seconds, sub-second count, data); the reader's value must be
+    # seconds + count / its divisor (the arithmetic itself is TimeConv.legacy_us, checked further down)
+    import dpkt
+    from decimal import Decimal
+    def impl_legacy(data):
+        try:
+            rd = dpkt.pcap.Reader(io.BytesIO(data))
+            return rd._divisor, [(ts, bytes(buf)) for ts, buf in rd]
+        except Exception as e:
+            return "Exn " + type(e).__name__
+    for j in range(150 if ck.tier == "quick" else 3000):
+        if not m:
+            break
+        e_ = rng.choice("<>")
+        kind = rng.choice(["usec", "nsec", "modified", "usec", "nsec"])
+        magic = {"usec": 0xA1B2C3D4, "nsec": 0xA1B23C4D, "modified": 0xA1B2CD34}[kind]
+        pkts = [(rng.randrange(2 ** 32), rng.choice([0, rng.randrange(10 ** 6), rng.randrange(10 ** 9), rng.randrange(2 ** 32)]), bytes(rng.randrange(256) for _ in range(rng.choice([0, 1, 14, 60, 300]))))
+                for _ in range(rng.randrange(0, 5))]
+        f_ = struct.pack(e_ + "IHHIIII", magic, rng.choice([2, 2, 0, 65535]), rng.choice([4, 4, 0, 3]), rng.randrange(2 ** 32), rng.randrange(2 ** 32), rng.choice([0, 96, 65535, 262144, 2 ** 32 - 1]),
+                         rng.choice([1, 1, 0, 113, 0x24000001, 2 ** 32 - 1]))
+        for sec, sub, d in pkts:
+            f_ += struct.pack(e_ + "IIII", sec, sub, len(d), rng.choice([len(d), len(d) + 100, 0])) + (struct.pack(e_ + "IHBB", rng.randrange(2 ** 32), rng.randrange(65536), rng.randrange(256), 0) if kind == "modified" else b"") + d
+        how = rng.choice(["whole", "whole", "cut", "caplen-beyond", "bad-magic", "short"])
+        if how == "cut" and len(f_) > 1:
+            f_ = f_[:rng.randrange(1, len(f_))]
+        elif how == "caplen-beyond" and pkts:
+            hl = 24 if kind == "modified" else 16
+            f_ = f_[:24 + 8] + struct.pack(e_ + "I", rng.choice([len(f_), 2 ** 31, 2 ** 32 - 1])) + f_[24 + 12:]
+        elif how == "bad-magic":
+            b_ = bytearray(f_); b_[rng.randrange(4)] ^= 1 << rng.randrange(8); f_ = bytes(b_)
+        elif how == "short":
+            f_ = f_[:rng.randrange(0, 24)]
+        hist["legacy-reader=%s/%s" % (kind, how)] += 1
+        r = impl_legacy(f_)
+        mt = m.ask("readlegacy", f_.hex() if f_ else "-")
+        if isinstance(mt, Skipped):
+            continue
+        ck.case(("legacy-reader", f_))
+        if isinstance(r, str) or not mt.startswith("Ok "):
+            if not (isinstance(r, str) and mt == r):
+                disagreements.append({"what": "legacy pcap reader, %s file, %s" % (kind, how), "model": mt[:100], "impl": str(r)[:100], "capture": f_.hex()})
+            continue
+        div, items = r
+        nano, _, body = mt[3:].partition(";")
+        mitems = []
+        for x in (body.split("|") if body else []):
+            a_, b_, d_ = x.split(":")
+            mitems.append((int(a_, 16) + int(b_, 16) / div, bytes.fromhex("" if d_ == "-" else d_)))
+        if (nano == "1") != isinstance(div, Decimal) or mitems != items:
+            disagreements.append({"what": "legacy pcap reader, %s file, %s" % (kind, how), "model": "nano=%s %d packets" % (nano, len(mitems)), "impl": "divisor %s, %d packets" % (div, len(items)), "capture": f_.hex()})
     # time stamps at the function level: ticks -> Reader -> float seconds -> dpkt Writer -> microseconds, against Model/TimeConv.time_us;
     # whole-microsecond instants below 2^51 us must come out unchanged in every resolution (theorem C12_time_any_resolution for the model)
     n_time = 400 if ck.tier == "quick" else 6000
